@@ -1,4 +1,5 @@
-import MsiProofs.Lemmas.Codec
+import MsiProofs.Lemmas.PoolCodec
+import MsiProofs.Lemmas.RowCodec
 import MsiModel.PkgApi
 /-
 C08 — saved files are well-formed MSI databases with exact string accounting.
@@ -14,6 +15,10 @@ open MsiModel MsiModel.Pool
 
 def cell_roundtrip := @MsiProofs.Codec.cell_roundtrip
 def min_is_null := MsiProofs.Codec.min_is_null
+/-- each table stream is a whole number of column-major rows of the widths its column types dictate -/
+def rows_roundtrip := @MsiProofs.RowCodec.rows_roundtrip
+/-- the pool streams decode to the pool (every entry, both widths, long strings) -/
+def pool_roundtrip := @MsiProofs.PoolCodec.pool_roundtrip
 
 /-- total number of references the pool accounts for -/
 def total (l : List (List Char × Nat)) : Nat := (l.map (·.2)).sum
